@@ -698,13 +698,15 @@ pub struct Tier {
     pub cli_keys: usize,
     pub blocks: usize,
     pub n_tree: usize,
+    /// per block: calls additionally executed as the one and only call of a fresh process
+    pub n_fresh: usize,
 }
 
 pub fn tier(name: &str) -> Tier {
     match name {
-        "thorough" => Tier { name: "thorough", k_instances: 16, sweep_instances: 64, n_gen: 12_000, n_corpus: 8_000, n_cli: 1200, cli_keys: 4, blocks: 16, n_tree: 3000 },
-        "mini" => Tier { name: "quick", k_instances: 5, sweep_instances: 0, n_gen: 300, n_corpus: 200, n_cli: 20, cli_keys: 2, blocks: 1, n_tree: 20 },
-        _ => Tier { name: "quick", k_instances: 24, sweep_instances: 8, n_gen: 2_500, n_corpus: 1_500, n_cli: 150, cli_keys: 3, blocks: 1, n_tree: 300 },
+        "thorough" => Tier { name: "thorough", k_instances: 16, sweep_instances: 64, n_gen: 12_000, n_corpus: 8_000, n_cli: 1200, cli_keys: 4, blocks: 16, n_tree: 3000, n_fresh: 1500 },
+        "mini" => Tier { name: "quick", k_instances: 5, sweep_instances: 0, n_gen: 300, n_corpus: 200, n_cli: 20, cli_keys: 2, blocks: 1, n_tree: 20, n_fresh: 10 },
+        _ => Tier { name: "quick", k_instances: 24, sweep_instances: 8, n_gen: 2_500, n_corpus: 1_500, n_cli: 150, cli_keys: 3, blocks: 1, n_tree: 300, n_fresh: 400 },
     }
 }
 
@@ -798,6 +800,15 @@ pub fn main_c01(tier_name: &str, seed: u64) -> i32 {
                 (false, _) => sampled.clone(),
             };
             insts.push(build_inst(seed, block, j, &set, &info));
+        }
+        // history-free references: a sample of the calls, each as the only call a process ever makes
+        {
+            let mut fr = Rng::derive(seed, prng::D_SCHED, 700_000 + block);
+            let mut ks = Rng::derive(seed, prng::D_KEYS, 700_000 + block);
+            for _ in 0..tr.n_fresh.min(calls.len()) {
+                let c = if block == 0 && n_sweep > 0 && fr.chance(1, 3) { fr.below(n_sweep) } else { n_sweep + fr.below(calls.len() - n_sweep) };
+                insts.push(Inst { detrand: ks.next_u64() | 1, threads: 1, steps: vec![Step { call: c, thread: 0, v: "base".into(), p: vec![] }] });
+            }
         }
         let scn = Scenario { calls, insts };
         for i in &scn.insts {
